@@ -37,6 +37,18 @@ correspondence : every hierarchy a real constructor returns is compared with the
                  against the model product, exact as dense meanings (raw index/data arrays compared too, counted as a feature);
                  (c) the snapped finest matrix re-stored as CSC / COO with shuffled, split (duplicate) entries / dense / BSR:
                  `tocsr()` against the model conversion and the Galerkin product through that input format, exact.
+                 `c04y_build` (extension E54) = the COMPOSED loop model (`Model/ExtC04YLoop.lean`: `Coarsen.build` with the step guards
+                 of E13, the sparse Galerkin product of E27 and, for air_solver with filter_operator, the C19 kernel model of
+                 filter_matrix_rows on the STORED rows + eliminate_zeros) fed with what was traced on the real run: per call of the
+                 step the numbers its guard read and the P, R it produced (raw arrays, exact rationals), and the user's matrix.  The
+                 model must stop where the real loop stopped (rows, block sizes, exit reason, number of calls), the proved checker
+                 must accept the MODEL's hierarchy with tolerance 0 (`checkHierS` / `checkHierF`: that is the composition theorem
+                 loop_builds_hierarchy_sparse / air_loop_builds_filtered_hierarchy, valid for every step function returning
+                 well-formed P, R), the levels flagged "filtered in place" must be the ones a real step was attempted on, and the
+                 model's level matrices must be the real ones entrywise within 10 l tol of the accumulated bound
+                 |R_{l-1}|..|R_0||A_0||P_0|..|P_{l-1}| (level 0: exactly); runs with a model filter decision within 1e-8 of the
+                 threshold are skipped and counted.  On every third (thorough: fourth) small hierarchy without filtering and on
+                 every small AIR hierarchy with filtering.
                  `ext_py_call` (extension E31) = the Lean definitions GENERATED by harness/py2lean.py from the Python AST of the
                  working tree (`levelize_strength_or_aggregation`, `levelize_smooth_or_improve_candidates`, the `unpack_arg`
                  helper of every constructor) executed on generated option values (documented shapes and ill-typed ones:
@@ -53,6 +65,12 @@ search         : the five constructors x option grids x max_levels x max_coarse 
                  again; every hierarchy is judged against the options of the call that built it (same oracle, same Lean
                  ops), the user's values must stay what they were before the first call, and the hierarchies returned
                  earlier are judged again after each later call.
+                 badly scaled matrices (`tinyfy`, 14 % of all generated matrices, single calls and histories alike): the whole
+                 matrix times 2^-60 .. 2^-70 / 1e-18 (every stored entry below 1e-16), a few weak couplings 1e-9 .. 1e-300 /
+                 subnormals next to O(1) entries, D M D with tiny d_i -- for every constructor, format and option set.  The
+                 clause "finest level = the user's values" is an exact comparison with a snapshot taken before the call, so
+                 an absolute clean-up threshold applied to the user's (aliased or copied) arrays shows; the Galerkin clause is
+                 relative to |R||A||P| entrywise, so a coarse operator that lost its entries below an absolute threshold shows.
 """
 import contextlib
 import copy
@@ -78,12 +96,17 @@ META = {
             'gallery.gauge_laplacian, Hermitian / symmetric / nonsymmetric rotations with sa / rootnode), formats CSR / BSR / csr_matrix '
             '(object shared with the library) or CSC / dense (converted copy), per call a fresh symmetry flag (hermitian / omitted = '
             'default / symmetric / nonsymmetric), option set, limits and keep, a quarter of the later calls repeat an earlier one with '
-            'its option objects and other scalars; each call of a history counts as a case (distinct = the call and the calls before it)',
+            'its option objects and other scalars; each call of a history counts as a case (distinct = the call and the calls before it); '
+            '14 % of all generated matrices (every family, constructor, format, option set, histories included) are badly scaled '
+            'variants (`tinyfy`): the whole matrix times 2^-60 .. 2^-70 / 1e-18 / 2^-30 / 2^-45 / 2^-100, or a few weak couplings of '
+            'magnitude 1e-9 .. 1e-300 and subnormals (new positions or weakened existing couplings; symmetric / Hermitian / one-sided '
+            'as the family is) next to the O(1) entries, or D M D with d_i = 2^-27 .. 2^-35 on some unknowns',
     'search_only': ['float32 hierarchies, and those hierarchies with more than 24 unknowns on the finest level that the budget of the proved '
                     'checker does not reach (quick: <= 96 unknowns and 12 s of estimated Lean time, thorough: <= 150 unknowns and 400 s, '
                     'spread evenly over the run; feature lean-big-skipped-budget): shapes, Galerkin product, R = P^T / P^H are judged by the '
                     'NumPy oracle only (the proved checker `checkHier`, in its fast form `checkHierS`, runs on the others)',
-                    'finest level = the user\'s values and the user\'s matrix object left untouched: NumPy oracle',
+                    'finest level = the user\'s values and the user\'s matrix object left untouched: NumPy oracle, exact comparison with '
+                    'a snapshot of the values taken before the (first) constructor call -- entries of any magnitude (1e-300, subnormals) count',
                     'AIR filtering: the proved checker `checkHierF` takes the filtered copy of level 0 from a trace inside the real step '
                     '(an AIR hierarchy of one level has none and is checked as a plain level); filter decisions within 1e-8 of the threshold '
                     '(plus the rounding bounds of the two entries) are skipped by it (near_threshold_skipped) and, with lumping, the diagonal '
@@ -104,6 +127,14 @@ META = {
                     'dense meanings on the level operators of every third (thorough tier: fourth) small hierarchy, values snapped to a '
                     'dyadic grid where float64 is exact, and A_c of the real level against the exact model product within the Galerkin '
                     'tolerance; the stored index / data arrays agree as well (feature spmm:layout-same)',
+                    'composition (extension E54): PROVED for the loop model with an arbitrary numerical step function: if every proceeding '
+                    'step returns a well-formed n x r matrix P and r x n matrix R, r > 0 (hypothesis NumOK; discharged for R = P^T / P^H '
+                    'computed by the transpose model: step_hypothesis_transpose), the hierarchy satisfies HierOK with tolerance 0, and '
+                    'with AIR filtering HierOKF (input without duplicate stored entries), together with the limits clause '
+                    '(loop_builds_hierarchy_sparse, air_loop_builds_filtered_hierarchy, loop_limits_sparse).  Observed, not proved: that '
+                    'the real strength / splitting / aggregation / interpolation / smoothing routines return such P, R (the model loop '
+                    'is run on the observed P, R of every third small hierarchy and reproduces the real level matrices: c04y_build), '
+                    'and that scipy / the amg_core filter kernel compute what the models of them compute',
                     'exceptions: a constructor that raises on an option set / format the generator regards as supported, or does not '
                     'return within 30 s, is reported (returns no levels)'],
     'partial': [],
@@ -111,8 +142,10 @@ META = {
     'assumptions': ['"unknowns" compared with max_coarse are rows for ruge_stuben_solver / air_solver and rows / blocksize for the '
                     'aggregation-type constructors (as the anchored loops do); "predefined" strength / aggregation lists replace '
                     '(max_levels, max_coarse) by (len + 1, 0) as documented, and the limits clause is judged against those',
-                    'Galerkin tolerance: |A_c - R A P| <= max(1e-10, 2000 eps(dtype)) * (|R||A||P|) entrywise; hierarchies with non-finite '
-                    'values are skipped (counted)',
+                    'Galerkin tolerance: |A_c - R A P| <= max(1e-10, 2000 eps(dtype)) * (|R||A||P|) entrywise (relative to the entries: a '
+                    'matrix scaled by 2^-70 is judged as strictly as an O(1) one) + 1e-300 absolute (partial products that underflow); '
+                    'hierarchies with non-finite values are skipped (counted); when the smallest stored moduli of R, A, P multiply to less '
+                    'than 1e-280 the exact-arithmetic checkers (Lean) are not run on that hierarchy (feature lean-skipped:products-may-underflow)',
                     'a level without unknowns (0 x 0) counts as a violation (the step went on where the constructors\' own guards stop)',
                     'measure of the strict decrease: rows (A.shape[0]) -- proved for every proceeding step of the five modelled guards '
                     '(step_rows_decrease, sizes_decrease_unconditional); the node count rows / blocksize, which the aggregation-type loops '
@@ -204,8 +237,63 @@ def stencil2d(nx, ny, eps=1.0, conv=0.0):
     return M
 
 
-def gen_matrix(rng, ctor, quick, fam=None):
-    """dense ndarray + tags; sizes skewed to small, a tail of larger ones so that 4-6 levels occur"""
+TINY_P = 0.14
+# global scalings (powers of two: every float operation of a scale-invariant routine scales exactly; 1e-18: it does not)
+TINY_SCALES = [2.0 ** -60, 2.0 ** -62, 2.0 ** -64, 2.0 ** -66, 2.0 ** -68, 2.0 ** -70, 1e-18, 1e-18, 2.0 ** -30, 2.0 ** -45, 2.0 ** -100]
+# magnitudes of weak couplings next to O(1) entries: around and far below the usual absolute clean-up thresholds, subnormals
+WEAK_MAGS = [1e-9, 1e-12, 1e-14, 3e-16, 1e-16, 9e-17, 1e-17, 1e-17, 2.0 ** -60, 1e-18, 1e-20, 1e-30, 1e-100, 1e-200, 1e-300,
+             1e-310, 5e-324]
+
+
+def tinyfy(rng, M, tags):
+    """legitimately badly scaled variants of a generated matrix (the quantifier is over ALL matrices the constructors accept):
+    'scale'  the whole matrix times 2^-60 .. 2^-70, 1e-18 (a problem posed in other units): every stored entry is below 1e-16;
+    'weak'   a few very weak couplings (1e-9 .. 1e-300, subnormals) next to the O(1) entries, at new positions or in place of
+             existing off-diagonal couplings, symmetric / Hermitian / one-sided as the family is;
+    'dscale' D M D with d_i = 2^-27 .. 2^-35 on a few unknowns (some unknowns in other units): tiny diagonal entries with
+             consistently small rows and columns.
+    The symmetry class of the family (symmetric, Hermitian, complex symmetric, nonsymmetric) is kept."""
+    n = M.shape[0]
+    kind = str(pick(rng, ['scale', 'scale', 'weak', 'weak', 'weak', 'dscale']))
+    if n < 2 and kind == 'weak':
+        kind = 'scale'
+    M = np.array(M, dtype=complex if np.iscomplexobj(M) else float)
+    fam = tags['fam']
+    if kind == 'scale':
+        s = float(pick(rng, TINY_SCALES))
+        M = M * s
+        tags['tiny'] = f'scale:{s:.3g}'
+    elif kind == 'dscale':
+        d = np.ones(n)
+        idx = rng.choice(n, size=int(rng.integers(1, max(2, n // 3 + 1))), replace=False)
+        d[idx] = 2.0 ** -rng.integers(27, 36, size=len(idx)).astype(float)
+        M = (d[:, None] * M) * d[None, :]
+        tags['tiny'] = 'dscale'
+    else:
+        herm = fam in ('cherm', 'gauge')
+        onesided = fam in ('upwind', 'cnonsym') and rng.random() < 0.5
+        mags = []
+        for _ in range(int(rng.integers(1, max(2, min(n // 3, 8)) + 1))):
+            i, j = (int(x) for x in rng.choice(n, size=2, replace=False))
+            if rng.random() < 0.35 and np.any(M[i] != 0):
+                cand = [int(c) for c in np.nonzero(M[i])[0] if c != i]
+                if cand:
+                    j = int(pick(rng, cand))                 # an existing coupling becomes a very weak one
+            mag = float(pick(rng, WEAK_MAGS))
+            v = mag * float(pick(rng, [-1.0, -1.0, 1.0, -3.0, 7.5]))
+            if np.iscomplexobj(M) and rng.random() < 0.7:
+                v = v * complex(pick(rng, [1j, -1j, 0.6 + 0.8j, 0.6 - 0.8j]))
+            M[i, j] = v
+            if not onesided:
+                M[j, i] = np.conj(v) if herm else v
+            mags.append(mag)
+        tags['tiny'] = 'weak:%.0e' % min(mags)
+    return M, kind
+
+
+def gen_matrix(rng, ctor, quick, fam=None, tiny=None):
+    """dense ndarray + tags; sizes skewed to small, a tail of larger ones so that 4-6 levels occur; TINY_P of the matrices
+    are turned into badly scaled ones (`tinyfy`)"""
     cplx_ok = ctor in ('sa', 'rn')
     fams = ['p1', 'p1', 'p2', 'p2', 'aniso', 'upwind', 'lap', 'spd', 'diag', 'blocks', 'tiny', 'elas']
     if cplx_ok:
@@ -286,6 +374,10 @@ def gen_matrix(rng, ctor, quick, fam=None):
                 M = R + 1j * (0.3 * (Bs + Bs.T) + 0.1 * np.eye(n))             # A + i B, B real symmetric
             if fam == 'cnonsym':
                 M = M + np.triu(R, 1) * (0.3 + 0.2j)
+    if tiny is None:
+        tiny = rng.random() < TINY_P
+    if tiny:
+        M, _ = tinyfy(rng, M, tags)
     tags['complex'] = bool(np.iscomplexobj(M))
     return np.array(M), tags
 
@@ -893,10 +985,22 @@ def galerkin_excess(Ac, R, A, P):
     """max over entries of |Ac - RAP| / (|R||A||P|) (0/0 = 0)"""
     G = R @ (A @ P)
     Bd = np.abs(R) @ (np.abs(A) @ np.abs(P))
-    E = np.abs(Ac - G)
-    with np.errstate(divide='ignore', invalid='ignore'):
+    # the bound is RELATIVE to the entries (a globally tiny matrix is judged as strictly as an O(1) one); UNDERFLOW_ABS absorbs
+    # the absolute error of partial products that underflow (weak couplings of 1e-200 and below, subnormals)
+    floor = max(UNDERFLOW_ABS, float(np.finfo(Ac.dtype).tiny) * 1e8) if Ac.dtype.kind in 'fc' else UNDERFLOW_ABS   # float32: 1e-30
+    E = np.maximum(np.abs(Ac - G) - floor, 0.0)
+    with np.errstate(divide='ignore', invalid='ignore', over='ignore'):
         q = np.where(E == 0, 0.0, E / Bd)
     return float(np.max(q)) if q.size else 0.0, G
+
+
+UNDERFLOW_ABS = 1e-300
+
+
+def lg_min(M):
+    """log10 of the smallest non-zero modulus (0 for an O(1) or empty matrix)"""
+    a = np.abs(M[M != 0])
+    return min(0.0, float(np.log10(a.min()))) if a.size else 0.0
 
 
 def judge(case, ml, calls, Ain, D0):
@@ -953,6 +1057,8 @@ def judge(case, ml, calls, Ain, D0):
         if not (np.isfinite(P).all() and np.isfinite(R).all()):
             info['nonfinite'] = True
             return out, info
+        if lg_min(R) + lg_min(Ds[l]) + lg_min(P) < -280:
+            info['underflow'] = True      # a product of stored entries may underflow: exact arithmetic (Lean) is no reference
         # R versus P
         if symrel == 'symm' and not np.array_equal(R, P.T):
             out.append(('transpose', f'level {l}: R != P^T (max |R - P^T| = {float(np.abs(R - P.T).max()):.3g})', None))
@@ -1315,6 +1421,102 @@ def queue_steps(ctx, case, ml, calls, info, ML, MC, reason, real_calls, pending,
     pending.append(('xbuild', line, f'{enc_ints(rows)};{enc_ints(bss)};{reason};{real_calls}', case, viol))
 
 
+def queue_loop(ctx, case, ml, calls, info, ML, MC, reason, real_calls, want, pending, viol, fo=None, Af0=None):
+    """extension E54: the COMPOSED loop model (`c04y_build`: guards of E13 + sparse Galerkin product of E27 + for AIR the
+    stored-row filter) fed with the guard numbers, P and R observed on the real run; it must stop where the real loop stopped,
+    the proved checker must accept the MODEL's hierarchy (that is the composition theorem), and the model's level matrices must
+    be the real ones up to the accumulated rounding bound"""
+    ctor = case['ctor']
+    lv = ml.levels
+    m = len(lv)
+    rows, bss = info['rows'], info['bs']
+    if calls is None or len(calls) != real_calls or any(rec['nlev'] != k + 1 or 'ret' not in rec for k, rec in enumerate(calls)):
+        ctx.feat('yloop:calls-not-one-per-level')
+        return
+    if not sp.issparse(lv[0].A) or lv[0].A.format not in ('csr', 'bsr'):
+        ctx.feat('yloop:level0-not-csr-bsr')
+        return
+    toks = []
+    for k, rec in enumerate(calls):
+        g = step_token(ctor, rec)
+        if g is None:
+            ctx.feat('yloop:step-untraced')
+            return
+        if k < m - 1:
+            P, R = lv[k].P, lv[k].R
+            if not (sp.issparse(P) and sp.issparse(R)) or P.format not in ('csr', 'bsr', 'csc', 'coo') or \
+                    R.format not in ('csr', 'bsr', 'csc', 'coo'):
+                ctx.feat('yloop:operand-not-sparse')
+                return
+            toks += [g, sp_token(P), sp_token(R)]
+        else:
+            toks += [g, '-', '-']
+    filt = fo is not None and fo[1] != 0
+    th, lump = (enc_rat(float(fo[1])), int(bool(fo[0]))) if filt else ('-', 0)
+    line = (f'c04y_build {ctor} {info["sym"]} {ML} {MC} {bss[0]} {th} {lump} {LEAN_TOL} {LEAN_SLACK} {sp_token(lv[0].A)} '
+            + ' '.join(toks)).rstrip()
+    stored = [dense(Af0 if (filt and l == 0) else L.A) for l, L in enumerate(lv)]
+    attempted = set(c['nlev'] - 1 for c in calls)
+    flags = [int(filt and l >= 1 and (l < m - 1 or l in attempted)) for l in range(m)]
+    # accumulated entrywise bound |R_{l-1}| ... |R_0| |A_0| |P_0| ... |P_{l-1}| (lumping moves row sums onto the diagonal)
+    bounds = []
+    Bd = np.abs(dense(lv[0].A)).astype(float)
+    for l in range(m):
+        if filt and lump:
+            Bd = Bd + np.diag(Bd.sum(axis=1))
+        bounds.append(Bd)
+        if l < m - 1:
+            Bd = np.abs(dense(lv[l].R)) @ (Bd @ np.abs(dense(lv[l].P)))
+    impl = {'head': f'{enc_ints(rows)};{enc_ints(bss)};{reason};{real_calls}', 'want': want, 'stored': stored, 'flags': flags,
+            'bounds': bounds, 'tol': info['tol'], 'filt': filt}
+    pending.append(('yloop', line, impl, case, viol))
+    ctx.feat('yloop:' + ctor + (':filtered' if filt else ''))
+
+
+def flush_loop(ctx, line, impl, case, o):
+    parts = o.split(';')
+    if o.startswith('error') or len(parts) != 8:
+        ctx.corr('c04y_build', {'line': line[:600], 'ctor': case['ctor']}, o[:300], 'a hierarchy')
+        return
+    head = ';'.join(parts[:4])
+    if head != impl['head']:
+        ctx.corr('c04y_build', {'line': line[:600], 'ctor': case['ctor'], 'what': 'rows;blocksizes;reason;calls'}, head, impl['head'])
+        return
+    if (parts[4] == 'ok') != (impl['want'] == 'ok'):
+        # the composition theorem says `ok` whenever the observed P, R are well formed: the NumPy oracle found a structural defect
+        # (or the model did) that the other side does not see
+        ctx.corr('c04y_build', {'line': line[:600], 'ctor': case['ctor'], 'what': 'checker on the model hierarchy'}, parts[4], impl['want'])
+        return
+    if impl['want'] != 'ok':
+        ctx.feat('yloop:structural-defect-agreed')
+        return
+    near = int(parts[5])
+    if near:
+        ctx.near_skipped += near
+        ctx.feat('yloop:near-threshold-skipped', near)
+        return
+    if impl['filt'] and parts[6] != enc_ints(impl['flags']):
+        ctx.corr('c04y_build', {'line': line[:600], 'ctor': case['ctor'], 'what': 'levels filtered in place'}, parts[6], enc_ints(impl['flags']))
+        return
+    mats = parts[7].split('&')
+    worst = 0.0
+    for l, (txt, S, Bd) in enumerate(zip(mats, impl['stored'], impl['bounds'])):
+        vals = dec_list(txt, dec_crat)
+        G = np.array([complex(float(a), float(b)) for a, b in vals]).reshape(S.shape)
+        E = np.abs(S - G)
+        with np.errstate(divide='ignore', invalid='ignore'):
+            qv = np.where(E == 0, 0.0, E / Bd)
+        qm = float(np.max(qv)) if qv.size else 0.0
+        worst = max(worst, qm / max(l, 1))
+        if (l == 0 and not impl['filt'] and qm != 0.0) or not qm <= 10 * max(l, 1) * impl['tol']:
+            ctx.corr('c04y_build', {'line': line[:600], 'ctor': case['ctor'], 'level': l},
+                     f'|A_l - model A_l| / bound = {qm:.3g}', f'within {10 * max(l, 1) * impl["tol"]:.1g}')
+            return
+    if worst > 0:
+        ctx.rel_err(worst)
+    ctx.feat('yloop:levels-agree' + (':filtered' if impl['filt'] else '') + (':exact' if worst == 0.0 else ''))
+
+
 def eval_case(ctx, case, pending, shared=None):
     """build, judge with NumPy, queue the Lean requests; returns (ml, calls, violations found by the oracle) or None"""
     ctor, kw = case['ctor'], case['kw']
@@ -1336,6 +1538,8 @@ def eval_case(ctx, case, pending, shared=None):
     ctx.feat('ctor:' + ctor)
     ctx.feat('fmt:' + case['fmt'] + (str(case['bs']) if case['fmt'] == 'bsr' else ''))
     ctx.feat('fam:' + case['tags'].get('fam', '?'))
+    if case['tags'].get('tiny'):
+        ctx.feat('tiny:' + case['tags']['tiny'].split(':')[0] + ':' + ctor)
     ML0, MC0 = kw['max_levels'], kw['max_coarse']
     ML, MC, short = py_limits(case)
     try:
@@ -1414,8 +1618,10 @@ def eval_case(ctx, case, pending, shared=None):
         queue_steps(ctx, case, ml, calls, info, ML, MC, reason, real_calls, pending, viol)
     # ---- Lean: the proved checker (extension E50: any size within the budget, AIR with filtering)
     small = rows[0] <= LEAN_NMAX
+    if info.get('underflow'):
+        ctx.feat('lean-skipped:products-may-underflow')       # judged by the NumPy oracle (absolute floor UNDERFLOW_ABS) only
     if info.get('tol', 1) <= 1e-10 and all(hasattr(L, 'P') and hasattr(L, 'R') for L in ml.levels[:-1]) and \
-            (small or lean_big_ok(ctx, rows)):
+            not info.get('underflow') and (small or lean_big_ok(ctx, rows)):
         fo = kw.get('filter_operator') if ctor == 'air' else None
         structural = [b for b in bad if b[0] in ('dims', 'transpose', 'galerkin', 'decrease', 'empty-level')]
         want = 'ok' if not structural else 'fail'
@@ -1430,6 +1636,10 @@ def eval_case(ctx, case, pending, shared=None):
             if small and not any(b[0] in ('dims', 'empty-level') for b in bad) and \
                     (ctx.deep or ctx.replay_case is not None or ctx.evaluations % ctx.scale(3, 4) == 0):
                 queue_spmm(ctx, case, ml, info, bad, pending, viol)
+            # extension E54: the composed loop model on every third (fourth) small hierarchy
+            if small and not any(b[0] in ('dims', 'empty-level') for b in bad) and \
+                    (ctx.deep or ctx.replay_case is not None or ctx.evaluations % ctx.scale(3, 4) == 1):
+                queue_loop(ctx, case, ml, calls, info, ML, MC, reason, real_calls, want, pending, viol)
         else:
             # AIR with filtering: the filtered copy of level 0 observed inside the real step, in-place filtered coarse levels
             Af0 = next((c['inner'].get('Af') for c in (calls or []) if c['nlev'] == 1 and 'Af' in c.get('inner', {})), None)
@@ -1448,6 +1658,8 @@ def eval_case(ctx, case, pending, shared=None):
                 pending.append(('checkf', line, want, case, viol))
                 ctx.feat('lean-checked-hierarchy:filtered' + ('' if small else ':big'))
                 ctx.feat(f'lean-filtered:inplace-levels:{min(sum(flags), 3)}')
+                if small and not any(b[0] in ('dims', 'empty-level') for b in bad):
+                    queue_loop(ctx, case, ml, calls, info, ML, MC, reason, real_calls, want, pending, viol, fo=fo, Af0=Af0)
     return result
 
 
@@ -1482,6 +1694,9 @@ def flush(ctx, pending):
     for (what, line, impl, case, viol), o in zip(pending, outs):
         if what in ('xgal', 'xdy', 'xtr'):
             flush_spmm(ctx, what, line, impl, case, o)
+            continue
+        if what == 'yloop':
+            flush_loop(ctx, line, impl, case, o)
             continue
         if what in ('check', 'checkf'):
             # the proved checker and the NumPy oracle judge the same levels: they must agree
@@ -1755,7 +1970,10 @@ def adaptive_eval(ctx, D, kw, seed, pending=None):
         ctx.violation(f'adaptive_sa_solver: {text} [clause {clause}; max_levels={ML}, max_coarse={MC}]', pcase, fkey=fkey)
     # extension E50: the proved checker on what adaptive_sa_solver returned (shapes, strict decrease, Galerkin, R = P^H / P^T;
     # the limits stay with the oracle above: known finding adaptive-ignores-limits)
-    if 'rows' in info and info.get('tol', 1) <= 1e-10 and all(hasattr(L, 'P') and hasattr(L, 'R') for L in ml.levels[:-1]):
+    if info.get('underflow'):
+        ctx.feat('lean-skipped:products-may-underflow')
+    if 'rows' in info and info.get('tol', 1) <= 1e-10 and all(hasattr(L, 'P') and hasattr(L, 'R') for L in ml.levels[:-1]) and \
+            not info.get('underflow'):
         structural = [b for b in bad if b[0] in ('dims', 'transpose', 'galerkin', 'decrease', 'empty-level')]
         queue = pending if pending is not None else []
         queue.append(('check', f'c04x_check {info["sym"]} {LEAN_TOL} ' + ' '.join(hier_tokens(ml.levels)),
@@ -1803,7 +2021,10 @@ def bare_solver_case(ctx, rng, pending=None):
             ctx.violation(f'MultilevelSolver(levels): level {l} given without R does not get R = P^H', pcase)
             ok = False
             break
-    if all(hasattr(L, 'R') for L in ml.levels[:-1]) and all(np.isfinite(dense(L.A)).all() for L in ml.levels):
+    if all(hasattr(L, 'R') for L in ml.levels[:-1]) and \
+            any(lg_min(dense(L.R)) + lg_min(dense(L.A)) + lg_min(dense(L.P)) < -280 for L in ml.levels[:-1]):
+        ctx.feat('lean-skipped:products-may-underflow')      # P^H A P formed above in floating point: exact arithmetic is no reference
+    elif all(hasattr(L, 'R') for L in ml.levels[:-1]) and all(np.isfinite(dense(L.A)).all() for L in ml.levels):
         queue = pending if pending is not None else []
         queue.append(('check', f'c04x_check herm {LEAN_TOL} ' + ' '.join(hier_tokens(ml.levels)), 'ok' if ok else 'fail',
                       {'ctor': 'bare'}, lambda what, fkey=None: ctx.violation('MultilevelSolver(levels): ' + what, pcase, fkey=fkey)))
